@@ -3,6 +3,7 @@
 -/
 import Lean.Data.Json
 import SqlairModel.Spec.L2
+import SqlairProofs.NoPanic.Defs
 import Driver.Json
 
 open Lean Sqlair
@@ -100,8 +101,12 @@ def handleL2 (j : Json) : Except String Json := do
   | .ok oj =>
     let o ← parseBindObs oj
     let aff := affected m o
+    -- hypothesis of the no-panic theorems (C18): every argument tree has the shape its type
+    -- descriptors promise (`ArgWF`: an untyped nil, or `ValWF`, decided by `valWF`)
+    let argsWF := args.all fun a => (match a with | .invalid => true | _ => false) || valWF tt 64 a
     pure (Json.mkObj
       [("model", Json.mkObj modelJson),
+       ("argsWF", Json.bool argsWF),
        ("agree", Json.bool aff.isEmpty),
        ("affects", Json.arr (aff.map Json.str).toArray),
        ("c01", Json.bool (holdsC01e2e q segs o)),
